@@ -1,0 +1,33 @@
+// SPDX-FileCopyrightText: 2026 The Pion community <https://pion.ly>
+// SPDX-License-Identifier: MIT
+
+//go:build verif && verif_c21 && !js
+
+package webrtc
+
+// VerifC21UpdateConnectionState runs updateConnectionState with the given
+// transport states (a thread of the C21 interleaving model).
+func (pc *PeerConnection) VerifC21UpdateConnectionState(ice ICEConnectionState, dtls DTLSTransportState) {
+	pc.updateConnectionState(ice, dtls)
+}
+
+// VerifC21CloseFlags reports the shared variables of close(): the
+// [[IsClosed]] slot, isGracefullyClosingOrClosed and whether each of the two
+// done-channels has been closed.
+func (pc *PeerConnection) VerifC21CloseFlags() (isClosed, graceful, closeDone, gracefulDone bool) {
+	pc.mu.RLock()
+	graceful = pc.isGracefullyClosingOrClosed
+	pc.mu.RUnlock()
+	select {
+	case <-pc.isCloseDone:
+		closeDone = true
+	default:
+	}
+	select {
+	case <-pc.isGracefulCloseDone:
+		gracefulDone = true
+	default:
+	}
+
+	return pc.isClosed.Load(), graceful, closeDone, gracefulDone
+}
